@@ -95,7 +95,33 @@ Inductive op_x :=
 | OpInitBoot (h : option N)
 | OpFrame.
 
-Definition step_op_x (o : op_x) (s : st) : res st :=
+(* ---- 84081f2 (fix of D39), on top of the older layers whose bodies stay as they are ---------------
+   (a) trigger step_node_undefer_reattached: AFTER UPDATE OF detached ON node WHEN OLD.detached AND NOT
+       NEW.detached: the steps that consume the node lose the deferred flag.  Modelled as a pass at
+       the end of the transaction over the nodes that were detached before it and are attached after
+       it (no transaction of the alphabet re-attaches a node and detaches it again, and the edges
+       file -> step of a re-attached file are not touched after its re-attachment except for the step
+       that is being re-created, whose row is reset anyway).
+   (b) Executor.validate_dynamic_job: deferred = Step.has_unusable_dynamic_input() (a dynamic input
+       that is detached or not CONFIRMED / BUILT), no longer always TRUE. *)
+Definition reattached_keys (s s' : st) : list key :=
+  map nk (filter (fun n => negb (ndet n) &&
+                           match find_node (nk n) s with Some m => ndet m | None => false end) (nodes s')).
+Definition undefer_row (r : srow) : srow := mkS (sl r) (sst r) (sneed r) false (sdc r) (shold r).
+Definition undefer_labels (s s' : st) : list str :=
+  map sl (filter (fun r => sdef r && existsb (fun k => has_dep k (KStep, sl r) s') (reattached_keys s s'))
+                 (steps s')).
+Definition undefer_post (s s' : st) : st :=
+  fold_left (fun a l => upd_step l undefer_row a) (undefer_labels s s') s'.
+
+Definition has_unusable_dynamic_input (step : str) (s : st) : bool :=
+  existsb (fun d => key_eqb (dsnk d) (KStep, step) && ddyn d && is_some (find_node (dsrc d) s) &&
+                    match find_file (snd (dsrc d)) s with
+                    | Some r => is_detached (dsrc d) s ||
+                                negb (match fstt r with FConfirmed | FBuilt => true | _ => false end)
+                    | None => false end) (deps s).
+
+Definition step_op_x0 (o : op_x) (s : st) : res st :=
   match o with
   | OpC o => step_op_c o s
   | OpSkipOvertaken l => skip_overtaken l s
@@ -105,6 +131,15 @@ Definition step_op_x (o : op_x) (s : st) : res st :=
   | OpResetInterruptedRaw => reset_interrupted_raw s
   | OpInitBoot h => init_boot h s
   | OpFrame => Ok s
+  end.
+Definition step_op_x (o : op_x) (s : st) : res st :=
+  match o with
+  | OpC (OpT (OpBase (OpValidatePending l))) => set_sstate l SPending (has_unusable_dynamic_input l s) s
+  | _ => match step_op_x0 o s with
+         | Ok s' => Ok (undefer_post s s')
+         | Usage t => Usage t
+         | Internal t => Internal t
+         end
   end.
 Definition apply_op_x (s : st) (o : op_x) : st := match step_op_x o s with Ok s' => s' | _ => s end.
 Definition run_ops_x (ops : list op_x) (s : st) : st := fold_left apply_op_x ops s.
